@@ -90,6 +90,19 @@ def judgeSctpDemux (d : DictRt) (fin : Fin) (chunkTok : String) (impl : List Str
   let endAt := match endTok.splitOn "@" with | [_, x] => x.toNat?.toList | _ => []
   let model := simulate dfn ids s0 (implMsgs.map (·.1) ++ endAt) [] (chunks.length * 200 + 10) endTok
   let fails := perStreamVerdict dfn chunks fin implMsgs (endTok = "eof")
+  -- a reader that stops with an error on stream σ: σ's own bytes, cut by length after the
+  -- messages already delivered from it, do contain that error there
+  let fails := fails ++ (match endTok.splitOn "@" with
+    | [cls, x] =>
+      (match x.toNat? with
+       | some σ =>
+         let k := (implMsgs.filter (·.1 = σ)).length
+         let rest := splitRest dfn k (bytesOf chunks σ) fin
+         let want := ((showRes (splitStep dfn rest fin).1).takeWhile (· ≠ ':')).toString
+         if cls.startsWith "err" ∧ want ≠ cls ∧ ids.contains σ then
+           [s!"C19:stream-reported-broken-where-its-own-bytes-are-not:stream{σ}"] else []
+       | none => [])
+    | _ => [])
   let endTok := (endTok.splitOn "@").headD ""
   { model := " ".intercalate model, fails := fails,
     tags := [s!"streams={ids.length} chunks={chunks.length} msgs={implMsgs.length} end={endTok}"],
@@ -97,6 +110,8 @@ def judgeSctpDemux (d : DictRt) (fin : Fin) (chunkTok : String) (impl : List Str
 
 /-- `sctp serve cn=<mode> fin=.. chunks=.. => h:σ:id w:σ:id:ppid .. end=closed cn=<state>` -/
 def judgeSctpServe (d : DictRt) (fin : Fin) (cn : String) (chunkTok : String) (impl : List String) : Judged :=
+  let overlap := impl.contains "OVERLAP"
+  let impl := impl.filter (· ≠ "OVERLAP")
   let dfn := d.dictFn
   let chunks := parseChunks chunkTok
   let ids := streamIds chunks
@@ -140,6 +155,8 @@ def judgeSctpServe (d : DictRt) (fin : Fin) (cn : String) (chunkTok : String) (i
       fails := fails ++ ["C15:faulty-connection-not-closed"]
     if cn ≠ "none" ∧ ¬ impl.contains "cn=closed" then
       fails := fails ++ ["C14:close-notify-did-not-fire"]
+    if overlap then
+      fails := ["C08:two-handlers-active-on-one-connection"] ++ fails
     return { model := modelOut, fails := fails.eraseDups.take 4,
              tags := [s!"serve streams={ids.length} chunks={chunks.length} msgs={hs.length} cn={cn}"] }
 
